@@ -54,7 +54,7 @@ func Setup(shardNum, databases int, logDir string) {
 
 // Commands returns the registered command names without the verif.* ones.
 func Commands() []string {
-	var out []string
+	out := []string{"select"} // handled by the Manager itself, before the command table
 	for name := range memdb.CmdTable {
 		if !strings.HasPrefix(name, "verif.") {
 			out = append(out, name)
